@@ -93,6 +93,42 @@ def forms(tmp, tag, text, fmt, stated):
     return out
 
 
+def base_uri_cases(tmp, out):
+    """Turtle documents with relative IRIs and the `# baseURI:` header comment (TopBraid convention honoured by the loader): the
+    header gives the base in every hand-over form of the same document"""
+    base = "http://ex.test/"
+    data_doc = "# baseURI: %s\n@prefix ex: <http://ex.test/> .\n<a> <p> 71 .\n<b> <p> 3 .\n" % base
+    shapes_doc = ("# baseURI: %s\n@prefix sh: <http://www.w3.org/ns/shacl#> .\n"
+                  "<S> a sh:NodeShape ; sh:targetSubjectsOf <p> ; sh:property [ sh:path <p> ; sh:maxInclusive 50 ] .\n" % base)
+    ref_d = Graph().parse(data=data_doc, format="turtle", publicID=base)
+    ref_s = Graph().parse(data=shapes_doc, format="turtle", publicID=base)
+    want = pyshacl.validate(ref_d, shacl_graph=ref_s)
+    want_n = len(list(want[1].subjects(RDF.type, SH.ValidationResult)))
+    for arg, doc in (("data", data_doc), ("shapes", shapes_doc)):
+        for stated in (True, False):
+            for fname, make in forms(tmp, "baseuri_%s" % arg, doc, "turtle", stated):
+                if fname in ("str", "bytes", "open-binary-written") and not stated:
+                    continue     # a leading comment line is no header the format could be detected from
+                src = make()
+                kw = {("data_graph_format" if arg == "data" else "shacl_graph_format"): "turtle"} if stated else {}
+                out.evaluations += 1
+                try:
+                    with time_limit(30):
+                        got = pyshacl.validate(src if arg == "data" else ref_d, shacl_graph=ref_s if arg == "data" else src, **kw)
+                    res = (got[0], len(list(got[1].subjects(RDF.type, SH.ValidationResult))))
+                except Exception as e:  # noqa
+                    res = ("err", type(e).__name__)
+                finally:
+                    if hasattr(src, "close"):
+                        src.close()
+                out.count("form:baseuri-" + fname)
+                if res != (want[0], want_n):
+                    out.b_fail.append({"signature": "C20:base-uri-header:%s:%s:%s" % (arg, fname, "stated" if stated else "auto"),
+                                       "case": {"argument": arg, "form": fname, "format_stated": stated, "document": doc}, "this_form": list(res), "graph_object": [want[0], want_n]})
+    if want_n:
+        out.nontrivial.add("baseuri")
+
+
 def rewritten_file_cases(tmp, out):
     """the same path handed over twice, the file rewritten in between with a document of the same byte length (same second, mtime
     restored): the second report must be that of the file's current content, for the data and for the shapes argument"""
@@ -300,6 +336,7 @@ def run(ctx, out):
                             out.count("format:%s:%s" % (fmt, "stated" if stated else "auto"))
             out.sample({"case": ci, "results": len(ref[2]), "triples": [len(dg), len(sg), len(og)]})
         rewritten_file_cases(tmp, out)
+        base_uri_cases(tmp, out)
         # ── (A) classification of str / bytes sources, and the sniff / extension tables ─────────────────────────────
         scratch = os.path.join(tmp, "cwd")
         os.makedirs(os.path.join(scratch, "dir"))
